@@ -2,9 +2,11 @@
 C09 — Cardinalities: normal form, exact violation reports, never enforced, persisted.
 
 Property theorems only; helper lemmas are in `Proofs/Card.lean`, `Proofs/Str.lean`.
-Model: `Model/Card.lean` (tied to /repo by `harness/corr_c09.py`).
+Model: `Model/Card.lean` (the values), `Model/CardObj.lean` (the stored Python objects: exact int vs
+bool); tied to /repo by `harness/c09.py`.
 -/
 import OdmlModel.Model.Card
+import OdmlModel.Model.CardObj
 import OdmlModel.Proofs.Card
 import OdmlModel.Generated.FormatTables
 
@@ -409,6 +411,120 @@ theorem card_keys_in_format :
     Gen.Format.sectionMap.lookup "sec_cardinality" = none ∧
     Gen.Format.sectionMap.lookup "prop_cardinality" = none := by decide
 
+/-! ## 6. The stored objects: exact ints, also for bool bounds (`Model/CardObj.lean`) -/
+
+/-- The stored objects and the stored values are the same cardinality: whatever the `return`
+    statements do with an accepted bound, as long as it keeps its value (`int(x)` does, and so did
+    handing `x` back), `format_cardinality` accepts / refuses the same settings and stores the same
+    (min, max) values. Every theorem above about `formatCard` therefore speaks about the objects
+    `formatCardObj pyInt` stores. -/
+theorem fmt_obj_view (conv : In → PyBound) (hc : KeepsValue conv) (v : In) :
+    (formatCardObj conv v).view = formatCard v := by
+  have hn : PyBound.nul.val = none := rfl
+  by_cases hs : ∃ t a b, v = .seq t [a, b]
+  · obtain ⟨t, a, b, rfl⟩ := hs
+    rw [formatCardObj_pair, formatCard_pair]
+    split
+    · rfl
+    · cases hx : nonnegInt a <;> cases hy : nonnegInt b <;> simp only
+      · rfl
+      · rename_i y
+        have hy' := hc b y (nonneg_asInt hy)
+        split <;> simp [ObjRes.view, ObjCard.view, hy', hn]
+      · rename_i x
+        have hx' := hc a x (nonneg_asInt hx)
+        split <;> simp [ObjRes.view, ObjCard.view, hx', hn]
+      · rename_i x y
+        have hx' := hc a x (nonneg_asInt hx)
+        have hy' := hc b y (nonneg_asInt hy)
+        split
+        · simp [ObjRes.view, ObjCard.view, hx', hy']
+        · split
+          · simp [ObjRes.view, ObjCard.view, hy', hn]
+          · split <;> simp [ObjRes.view, ObjCard.view, hx', hn]
+  · have hs' : ∀ t a b, v ≠ .seq t [a, b] := fun t a b h => hs ⟨t, a, b, h⟩
+    rw [formatCardObj_other conv v hs', formatCard_other v hs']
+    split
+    · rfl
+    · cases hi : v.asInt with
+      | none => rfl
+      | some i =>
+        have := hc v i hi
+        simp only
+        split <;> simp [ObjRes.view, ObjCard.view, this, hn]
+
+
+/-- The same for the three setters (accepted: the new object, refused: the old one kept). -/
+theorem set_obj_view (conv : In → PyBound) (hc : KeepsValue conv) (old : ObjCard) (v : In) :
+    ((setCardObj conv old v).1.view, (setCardObj conv old v).2) = setCard old.view v := by
+  have h := fmt_obj_view conv hc v
+  unfold setCardObj setCard
+  cases hf : formatCardObj conv v with
+  | ok c => rw [hf] at h; simp [ObjRes.view] at h; simp [← h]
+  | valueError => rw [hf] at h; simp [ObjRes.view] at h; simp [← h]
+
+/-- **Bool bounds.** `bool` is a subclass of `int`, so `True`, `(True, 5)`, `[None, True]`,
+    `(False, 3)` ... pass the `isinstance(x, int)` tests. Whatever is assigned - bools included -
+    every bound of an accepted cardinality is stored as `None` or an exact `int`, never as a `bool`,
+    and what is stored for a setting with bool bounds is exactly what is stored for the same
+    setting with each bool replaced by the int it equals (also the refusals are the same). -/
+theorem bool_bound_exact (v : In) :
+    (∀ a b, formatCardObj pyInt v = .ok (some (a, b)) → a.exact = true ∧ b.exact = true) ∧
+    formatCardObj pyInt v = formatCardObj pyInt v.unbool :=
+  ⟨fmt_obj_exact v, (fmt_obj_unbool v).symm⟩
+
+/-- After **any** sequence of assignments (accepted or refused, bools or not) the slot holds
+    `None` / exact ints only. -/
+theorem slot_always_exact (vs : List In) (p : PyBound × PyBound)
+    (h : vs.foldl (fun c v => (setCardObj pyInt c v).1) none = some p) :
+    p.1.exact = true ∧ p.2.exact = true := by
+  have key : ∀ (ws : List In) (c : ObjCard),
+      (∀ q, c = some q → q.1.exact = true ∧ q.2.exact = true) →
+      ∀ q, ws.foldl (fun c v => (setCardObj pyInt c v).1) c = some q →
+        q.1.exact = true ∧ q.2.exact = true := by
+    intro ws
+    induction ws with
+    | nil => intro c hc q hq; exact hc q (by simpa using hq)
+    | cons v ws ih =>
+      intro c hc
+      apply ih
+      intro q hq'
+      have hq : (setCardObj pyInt c v).1 = some q := hq'
+      unfold setCardObj at hq
+      cases hf : formatCardObj pyInt v with
+      | ok c' =>
+        rw [hf] at hq; simp only at hq; subst hq
+        exact fmt_obj_exact v q.1 q.2 hf
+      | valueError => rw [hf] at hq; exact hc q hq
+  exact key vs none (by simp) p h
+
+/-- What is stored for any accepted setting - bool bounds included - is written by the XML writer
+    (`str` of the stored tuple) and by the JSON / YAML writers (the list) in a form that the
+    parsers read back to the same (min, max). -/
+theorem bool_bound_persisted (v : In) (p : PyBound × PyBound)
+    (h : formatCardObj pyInt v = .ok (some p)) :
+    parseCardText (renderObjText p) = some (p.1.val, p.2.val) ∧
+    parseCardList (dinOfPyBound p.1) (dinOfPyBound p.2) = some (p.1.val, p.2.val) := by
+  obtain ⟨a, b⟩ := p
+  obtain ⟨ha, hb⟩ := fmt_obj_exact v a b h
+  have hv : formatCard v = .ok (some (a.val, b.val)) := by
+    have := fmt_obj_view pyInt pyInt_keepsValue v
+    rw [h] at this
+    simpa [ObjRes.view, ObjCard.view] using this.symm
+  have hs := fmt_normal v _ hv
+  have hr : renderObjText (a, b) = renderCardText (a.val, b.val) := by
+    simp [renderObjText, renderCardText, exact_render ha, exact_render hb]
+  simp only [hr, exact_din ha, exact_din hb]
+  exact ⟨persist_text _ hs, persist_list _ hs⟩
+
+/-- Witness on the code before the repair (`return v_min, v_max`, modelled by `asGiven`): the bool
+    was stored as it came, the XML writer spelled it `(True, 5)`, and `parse_cardinality` reads
+    that as "no cardinality" (known finding `bool_cardinality_bound_lost`, fixed). -/
+theorem bool_bound_legacy_counterexample :
+    formatCardObj asGiven (.seq true [.bool true, .int 5]) = .ok (some (.bool true, .int 5)) ∧
+    renderObjText (.bool true, .int 5) = "(True, 5)".toList ∧
+    parseCardText (renderObjText (.bool true, .int 5)) = none := by decide
+
 /-! ## Non-vacuity: the hypotheses are met by concrete, non-trivial states -/
 
 example : formatCard (.seq true [.int 2, .int 2]) = .ok (some (some 2, some 2)) := by decide
@@ -420,5 +536,12 @@ example : Stored (some (some 2, some 2)) := by simp [Stored, Normal, Strong]
 example : cardIssue (some (some 2, some 2)) 3 = some (.maximum 2) := by decide
 example : parseCardText (renderCardText (some 2, some 2)) = some (some 2, some 2) := by decide
 example : parseCardText "(None, 12)".toList = some (none, some 12) := by decide
+example : formatCardObj pyInt (.seq true [.bool true, .int 5]) = .ok (some (.int 1, .int 5)) := by decide
+example : formatCardObj pyInt (.seq false [.nul, .bool true]) = .ok (some (.nul, .int 1)) := by decide
+example : formatCardObj pyInt (.bool true) = .ok (some (.nul, .int 1)) := by decide
+example : formatCardObj pyInt (.seq true [.bool true, .bool false]) = .ok (some (.int 1, .nul)) := by decide
+example : formatCardObj pyInt (.seq true [.nul, .bool false]) = .ok none := by decide
+example : formatCardObj pyInt (.seq true [.int 2, .bool true]) = .valueError := by decide
+example : parseCardText (renderObjText (.int 1, .int 5)) = some (some 1, some 5) := by decide
 
 end C09
